@@ -21,7 +21,9 @@
 //	      included) in the base run and in the mutated run, and so is the resolved YangType of every
 //	      type statement of the text (every copy of a leaf shares that object); changing one instance directly through the exported fields leaves every
 //	      independent instance and every grouping entry unchanged; a module loaded afterwards that
-//	      uses a grouping once more gets a faithful copy.
+//	      uses a grouping once more gets a faithful copy; whatever an augment adds, also the copies a
+//	      uses statement in its body makes of a grouping of the target's own module, reports the
+//	      namespace and instantiating module of the augmenting module.
 //
 // Inputs: corpus/C06/*.json first (hand-written witnesses with a table of expected Extra / Exts),
 // then the seeded sets. Any failure of (ii) or (iii) is a "spec" disagreement with verdict "violates".
@@ -54,6 +56,8 @@ type know struct {
 	BaseNames []string        `json:"base_names,omitempty"`
 	BaseTexts []string        `json:"base_texts,omitempty"`
 	Late      *gen.C06Late    `json:"late,omitempty"`
+	// mutated variant: what the augments add and whose namespace it belongs to
+	AugNodes []gen.C06AugNode `json:"aug_nodes,omitempty"`
 	// corpus cases: hand-written Extra / Exts of selected nodes (path as Entry.Path prints it)
 	ExpectExtras []gen.C06Rec `json:"expect_extras,omitempty"`
 }
@@ -830,6 +834,7 @@ func checkExtrasLaw(k know, ms *yang.Modules, ix astIndex, f findings, skipTouch
 // checkCorpus: a hand-written case: the sharing walk, and the Extra / Exts of the nodes its table names.
 func checkCorpus(k know, ms *yang.Modules, ix astIndex, f findings) {
 	checkSharing(ms, ix, f)
+	checkAugNamespaces(k, ms, f)
 	for _, want := range k.ExpectExtras {
 		var e *yang.Entry
 		parts := strings.Split(strings.TrimPrefix(want.Path, "/"), "/")
@@ -846,6 +851,44 @@ func checkCorpus(k know, ms *yang.Modules, ix astIndex, f findings) {
 		if string(a) != string(b) {
 			f.add("extras: %s has %s, expected %s", want.Path, a, b)
 		}
+	}
+}
+
+// checkAugNamespaces: whatever an augment adds - also the copies a uses statement in its body makes,
+// whichever module defines the grouping - belongs to the namespace of the augmenting module.
+func checkAugNamespaces(k know, ms *yang.Modules, f findings) {
+	for _, a := range k.AugNodes {
+		e := entryAt(moduleTree(ms, a.Module), a.Path)
+		if e == nil {
+			f.add("augment: the node /%s/%s the augment adds does not exist", a.Module, strings.Join(a.Path, "/"))
+			continue
+		}
+		bad := 0
+		var walk func(e *yang.Entry)
+		walk = func(e *yang.Entry) {
+			if e == nil || bad > 0 {
+				return
+			}
+			ns := ""
+			if v := e.Namespace(); v != nil {
+				ns = v.Name
+			}
+			im, err := e.InstantiatingModule()
+			if ns != a.NS || err != nil || im != a.IM {
+				bad++
+				f.add("namespace: %s, added by an augment of module %s (also a copy made by uses belongs to the module that uses it), reports namespace %q and instantiating module %q (%v); expected %q and %q",
+					e.Path(), a.IM, ns, im, err, a.NS, a.IM)
+				return
+			}
+			for _, key := range lib.SortedKeys(e.Dir) {
+				walk(e.Dir[key])
+			}
+			if e.RPC != nil {
+				walk(e.RPC.Input)
+				walk(e.RPC.Output)
+			}
+		}
+		walk(e)
 	}
 }
 
@@ -876,6 +919,7 @@ func oracle(c rescorr.Case, ms *yang.Modules, errs []error, out *rescorr.GoOut) 
 	checkSharing(ms, ix, f)
 	var bix *astIndex
 	if mut {
+		checkAugNamespaces(k, ms, f)
 		bix = checkAgainstBase(c, k, ms, ix, f)
 	}
 	checkDirect(k, ms, ix, f)
@@ -935,13 +979,15 @@ func main() {
 				Sites     []gen.C06Site `json:"sites"`
 				// expected binding of uses statements (location of the statement, of the grouping)
 				Uses []gen.C06UseRef `json:"uses"`
+				// nodes an augment adds, with the namespace and module they belong to
+				AugNodes []gen.C06AugNode `json:"aug_nodes"`
 			}
 			if err := json.Unmarshal(raw, &cc); err != nil || len(cc.Names) == 0 {
 				lib.Fatal("corpus file %s: %v", p, err)
 			}
-			kn := know{Variant: "corpus", ExpectExtras: cc.ExpectExtras, Uses: cc.Uses}
+			kn := know{Variant: "corpus", ExpectExtras: cc.ExpectExtras, Uses: cc.Uses, AugNodes: cc.AugNodes}
 			if cc.Variant == "mut" {
-				kn = know{Variant: "mut", Sites: cc.Sites, BaseNames: cc.BaseNames, BaseTexts: cc.BaseTexts, Uses: cc.Uses}
+				kn = know{Variant: "mut", Sites: cc.Sites, BaseNames: cc.BaseNames, BaseTexts: cc.BaseTexts, Uses: cc.Uses, AugNodes: cc.AugNodes}
 			}
 			kb, _ := json.Marshal(kn)
 			cases = append(cases, rescorr.Case{Names: cc.Names, Texts: cc.Texts, Extra: map[string]string{"c06": string(kb), "origin": "corpus/" + filepath.Base(p)}})
@@ -1024,7 +1070,7 @@ func main() {
 				for _, k := range gc.MutProps {
 					mutProps[k]++
 				}
-				km, _ := json.Marshal(know{Variant: "mut", Uses: gc.Uses, Sites: gc.Sites, BaseNames: gc.Names, BaseTexts: gc.Texts, Late: gc.Late})
+				km, _ := json.Marshal(know{Variant: "mut", Uses: gc.Uses, Sites: gc.Sites, BaseNames: gc.Names, BaseTexts: gc.Texts, Late: gc.Late, AugNodes: gc.AugNodes})
 				cases = append(cases, rescorr.Case{Names: gc.MutNames, Texts: gc.MutTexts, Extra: map[string]string{"c06": string(km)}})
 				metas = append(metas, meta{"mut", len(gc.Sites), multi, unt, gc})
 			}
@@ -1084,13 +1130,14 @@ func main() {
 	}
 	res.Evaluations = total
 	res.DistinctNontrivial = distinct.Len()
-	res.Rule = "corpus/C06 (witnesses of D62 and of the seeded changes C06-c1, C06-d2), then seeded grouping-heavy module sets (harness/gen/c06.go: 1-3 modules, 0-3 submodules each with include chains, groupings at " +
+	res.Rule = "corpus/C06 (witnesses of D62 and of the seeded changes C06-c1, C06-d2, C06-e1), then seeded grouping-heavy module sets (harness/gen/c06.go: 1-3 modules, 0-3 submodules each with include chains, groupings at " +
 		"module level, in submodules, in containers/lists/operations/notifications and inside groupings, tiny name pools so that shadowing is " +
 		"frequent, submodules whose belongs-to prefix differs from the module's own prefix and which import another module under the " +
 		"module's own prefix or a sibling's belongs-to prefix, nested uses, typedef t and identity idn defined per module so that resolving in the wrong scope shows, every reachable " +
 		"grouping given at least two instances; nodes, groupings and uses statements carrying 0-4 if-feature and extension statements - three " +
 		"being the case in which append leaves one spare slot - and when / status / reference / description), each as a base variant and as a variant in which one or two instances are changed by augments " +
-		"and deviations (not-supported; add, replace, delete of every property: units, default, type, config, mandatory, min/max-elements); distinct_nontrivial = distinct variants (by text) that process cleanly and " +
+		"(bodies with uses statements written directly in them and below a container: groupings of the target's module and its submodules, of a " +
+		"third module, of the augmenting module) and deviations (not-supported; add, replace, delete of every property: units, default, type, config, mandatory, min/max-elements); distinct_nontrivial = distinct variants (by text) that process cleanly and " +
 		"contain a grouping with at least two instances, i.e. on which the copy, sharing and independence oracles actually compare instances"
 	res.Distribution["nodes_with_predicted_Extra_or_Exts"] = extrasNodes
 	res.Distribution["uses_statements_with_extras"] = extrasUses
